@@ -1,19 +1,19 @@
 #!/bin/bash
 # Development tool: confirm a seeded change delivered by a sub-agent.
-#   tools/verify_seed.sh C06      (expects /tmp/wt_c06 with the change applied and /tmp/seeded_out/C06/{patch.diff,demo.sh|demo_test.rs,meta.json})
-# Checks: patch applies to a clean tree, workspace builds, existing suite passes with the change,
-# demonstration passes WITHOUT the change and fails WITH it.
+#   tools/verify_seed.sh C06      (expects worktree /tmp/wt_c06 and /tmp/seeded_out/C06/{patch.diff,demo.sh|demo_test.rs,meta.json})
+# Checks: patch.diff applies to the pristine tree, existing suite passes with the change,
+# demonstration passes WITHOUT the change and fails WITH it.  (No `git stash`: the stash stack is shared by all worktrees.)
 ID=$1; n=${ID:1}; WT=/tmp/wt_c$n; OUT=/tmp/seeded_out/$ID
 export RUST_BACKTRACE=0 CARGO_NET_OFFLINE=true
 cd $WT || exit 2
-git stash -q || exit 2
-git apply --check $OUT/patch.diff && echo "patch applies to the pristine tree: yes" || echo "patch applies: NO"
+git checkout -q -- . || exit 2
+git apply --check $OUT/patch.diff && echo "patch applies to the pristine tree: yes" || { echo "patch applies: NO"; exit 1; }
 run_demo() {
   if [ -f $OUT/demo.sh ]; then timeout 1500 bash $OUT/demo.sh $WT >/tmp/seed_demo_$ID.log 2>&1; echo $?;
   else cp $OUT/demo_test.rs $WT/ragc-core/tests/demo_test.rs; (cd $WT && timeout 1500 cargo test --offline -p ragc-core --test demo_test >/tmp/seed_demo_$ID.log 2>&1); rc=$?; rm -f $WT/ragc-core/tests/demo_test.rs; echo $rc; fi
 }
 echo "demo on pristine tree: exit $(run_demo)   (want 0)"
-git stash pop -q || exit 2
+git apply $OUT/patch.diff || exit 2
 echo "demo on changed tree:  exit $(run_demo)   (want != 0)"; tail -3 /tmp/seed_demo_$ID.log | cut -c1-200
-(cd $WT && cargo test --workspace --no-fail-fast --offline 2>&1 | grep -E "^test result|FAILED|error(\[|:)" | awk '/test result/{p+=$4; f+=$6} /error|FAILED/{e++} END {print "existing suite with the change: passed",p,"failed",f,"errors",e+0}')
+(cd $WT && timeout 1200 cargo test --workspace --no-fail-fast --offline 2>&1 | grep -E "^test result|FAILED|error(\[|:)|running for over" | awk '/test result/{p+=$4; f+=$6} /error|FAILED|running for over/{e++} END {print "existing suite with the change: passed",p,"failed",f,"errors",e+0}')
 git -C $WT status --short | head -5
